@@ -24,7 +24,7 @@ import lib
 import drive_sched as ds
 from corr import c04
 
-THEOREMS = ['RB.Sched.c11_schedule_independent_partial', 'RB.Sched.c11_sequential_is_instance']
+THEOREMS = ['RB.Sched.c11_schedule_independent_partial', 'RB.Sched.c11_sequential_is_instance_partial']
 THEOREMS_ABS = ['RB.Sched.c11_schedule_independent_abstract', 'RB.Sched.c11_schedule_independent_abstract_perm',
                 'RB.Sched.c11_datapoint_contiguous']
 
